@@ -59,3 +59,138 @@ def check(prog, chk, pid, floor=None):
     if floor is not None:
         chk.floor("A17.algebra", n, floor, "component of a geometry primitive compared with the reference algebra")
     return n
+
+
+# ---------------------------------------------------------------------------
+# call-site algebra: the arguments a function passes to a watched callee, case by case over an enum-typed selector,
+# compared with the reference modulo a one-to-one renaming of the role symbols (code-internal names never appear in
+# the reference)
+# ---------------------------------------------------------------------------
+import itertools
+import re
+
+
+def _symbols(v, out):
+    if v is None:
+        return
+    if A.is_form(v):
+        for k in v:
+            if k == A.ONE:
+                continue
+            for tok in re.findall(r"[A-Za-z_$][A-Za-z0-9_.$]*", str(k)):
+                out.add(tok)
+        return
+    if v[0] in ("tup",):
+        for x in v[1]:
+            _symbols(x, out)
+    elif v[0] in ("struct", "match"):
+        for x in v[1].values():
+            _symbols(x, out)
+    elif v[0] == "some":
+        _symbols(v[1], out)
+    elif v[0] == "if":
+        _symbols(v[1], out)
+        _symbols(v[2], out)
+
+
+FUNCS = {"abs", "max", "min", "floor", "ceil", "ite", "lt", "le", "eq", "ne", "mul", "div", "rem", "sqrt", "hypot", "round", "calc_offset", "evaluate", "adjust"}
+
+
+def _subst(x, ren):
+    if isinstance(x, str):
+        return re.sub(r"[A-Za-z_$][A-Za-z0-9_.$]*", lambda m: ren.get(m.group(0), m.group(0)), x)
+    if isinstance(x, list):
+        return [_subst(y, ren) for y in x]
+    if isinstance(x, dict):
+        return {k: _subst(v, ren) for k, v in x.items()}
+    return x
+
+
+def match_modulo(got_by_case, want_by_case, roles, fixed_prefixes=("box.", "$")):
+    """find an injective renaming roles -> code symbols under which every case agrees; returns (renaming, None) or
+    (None, explanation)"""
+    syms = set()
+    for g in got_by_case.values():
+        _symbols(g, syms)
+    cands = sorted(s for s in syms if s not in FUNCS and not s.startswith(fixed_prefixes) and not re.fullmatch(r"[0-9.]+", s))
+    if len(cands) < len(roles):
+        return None, f"the code's results mention only the symbols {cands}, fewer than the {len(roles)} quantities of the reference ({roles})"
+    best = None
+    for perm in itertools.permutations(cands, len(roles)):
+        ren = dict(zip(roles, perm))
+        bad = []
+        for case, want in want_by_case.items():
+            w = A.ref(_subst(want, ren))
+            if not A.equal(got_by_case.get(case), w):
+                bad.append(case)
+        if not bad:
+            return ren, None
+        if best is None or len(bad) < len(best[1]):
+            best = (ren, bad)
+    ren, bad = best
+    det = "; ".join(f"{c}: code {A.canon(got_by_case.get(c))} vs reference {A.canon(A.ref(_subst(want_by_case[c], ren)))}" for c in bad[:4])
+    return None, f"no consistent reading of {roles} makes all cases agree; closest ({ren}) fails for {det}"
+
+
+def _case_value(prog, ent, case_name, case):
+    presets = {}
+    if isinstance(case, dict) and case.get("preset"):
+        presets[ent["selector_type"]] = ("obj", case["preset"])
+    elif ent.get("selector_type") and not isinstance(case, dict):
+        presets[ent["selector_type"]] = ("obj", case_name)
+    name_case = case.get("name") if isinstance(case, dict) else None
+    ev = A.Evaluator(prog, presets=presets, type_alias=ent.get("alias", {}), watch=(ent["watch"],), opaque=ent.get("opaque", ()), name_case=name_case, transparent=ent.get("transparent", ("fstr",)))
+    h = ev.by_path.get(ent["function"])
+    argv = None
+    if isinstance(case, dict) and case.get("args"):
+        n = len([p for p in h["params"] if p.get("name") != "self"])
+        argv = []
+        for k in range(1, n + 1):
+            v = case["args"].get(str(k))
+            if isinstance(v, bool):
+                argv.append(("bool", v))
+            elif isinstance(v, str):
+                argv.append(("obj", v))
+            else:
+                argv.append(("obj", f"${k}"))
+    ev.summary(ent["function"], args=argv)
+    calls = [c for c in ev.calls if c["name"] == ent["watch"]]
+    if ent.get("collect") == "keyed":
+        out = {}
+        for c in calls:
+            if len(c["args"]) >= 2 and c["args"][0] is not None and not A.is_form(c["args"][0]) and c["args"][0][0] == "str":
+                out[c["args"][0][1]] = c["args"][1]
+        return ("struct", out)
+    if len(calls) != ent.get("calls", 1):
+        return None
+    c = calls[ent.get("call_index", 0)]
+    return ("tup", [c["args"][i] if i < len(c["args"]) else None for i in ent["args"]])
+
+
+def check_sites(prog, chk, pid):
+    with open(SPEC) as fh:
+        sites = json.load(fh).get("sites", {})
+    n = 0
+    for name, ent in sorted(sites.items()):
+        if pid not in ent["props"]:
+            continue
+        path = ent["function"]
+        b = prog.maybe_body(path)
+        if b is None:
+            chk.anchor_missing("A17.site-algebra", f"{path} not found")
+            continue
+        chk.touch(b)
+        got = {}
+        want = {}
+        for cname, case in ent["cases"].items():
+            got[cname] = _case_value(prog, ent, cname, case)
+            want[cname] = case["want"] if isinstance(case, dict) else case
+        ren, why = match_modulo(got, want, ent.get("roles", []), fixed_prefixes=tuple(ent.get("fixed", ["box.", "$"])))
+        n += len(ent["cases"])
+        short = path.replace("svgdx::", "")
+        if ren is not None:
+            for cname in ent["cases"]:
+                chk.ok("A17.site-algebra", f"{name}:{cname}", b.where(), f"{short} [{cname}]: {ent['watch']} <- {A.canon(got[cname])} equals the reference" + (f" with {ren}" if ren else ""))
+        else:
+            chk.bad("A17.site-algebra", f"{name}", b.where(), f"{short}: the values passed to {ent['watch']}() disagree with the reference algebra ({ent.get('why', '')}): {why}")
+    return n
